@@ -1,4 +1,6 @@
-// Stand-alone reproduction of the C01 finding
+// Stand-alone reproduction of the C01 finding (fails on the pinned tree before
+// commit 40304a8 "fix: http2/hpack: accept several dynamic table size updates at
+// the start of a block"; passes after it)
 //
 //	C01/decode-error/two-size-updates-at-block-start
 //
